@@ -19,7 +19,7 @@ func init() { register("C19", "fault_enumeration", runC19) }
 type c19Config struct {
 	Name    string   `json:"name"`
 	Via     string   `json:"via"` // send (DialWithContext) | withclient (DialToSMTPClientWithContext) | dialandsend
-	TLS     string   `json:"tls"` // none | opportunistic | mandatory
+	TLS     string   `json:"tls"` // none | opportunistic | mandatory | implicit (WithSSL; the dial function hands out a TLS client connection)
 	Caps    []string `json:"caps"`
 	CapsTLS []string `json:"caps_tls,omitempty"`
 	Auth    string   `json:"auth,omitempty"`     // client auth type ("" none)
@@ -94,6 +94,8 @@ func runC19Case(r *ev.Run, c c19Case) int {
 	switch cfg.TLS {
 	case "none":
 		opts = append(opts, mail.WithTLSPolicy(mail.NoTLS))
+	case "implicit":
+		opts = append(opts, mail.WithSSL())
 	case "opportunistic":
 		opts = append(opts, mail.WithTLSPolicy(mail.TLSOpportunistic))
 	default:
@@ -115,7 +117,11 @@ func runC19Case(r *ev.Run, c c19Case) int {
 		}
 		msgs = append(msgs, m)
 	}
-	sr := runSend(newCfg, nil, opts, msgs, cfg.Via, false)
+	farm := &refsmtp.Farm{NewConfig: newCfg}
+	if cfg.TLS == "implicit" {
+		farm.ImplicitTLS = gen.ClientTLS(netHost, 0, 0)
+	}
+	sr := runSendF(farm, opts, msgs, cfg.Via, defaultNetTimeout)
 	if sr.Panic != nil {
 		viol("panic", fmt.Sprintf("client panicked: %v", sr.Panic), nil)
 	}
@@ -233,6 +239,9 @@ func c19Configs(thorough bool) []c19Config {
 			c19Config{Name: via + "-auth-plain-refused-unencrypted", Via: via, TLS: "none", Caps: with("AUTH PLAIN"), Auth: "PLAIN-TLSONLY", NMsgs: n},
 			c19Config{Name: via + "-autodiscover-nothing", Via: via, TLS: "none", Caps: with("AUTH PLAIN LOGIN"), Auth: "AUTODISCOVER", NMsgs: n},
 			c19Config{Name: via + "-starttls-auth", Via: via, TLS: "mandatory", Caps: with("STARTTLS"), CapsTLS: with("AUTH PLAIN"), Auth: "PLAIN-TLSONLY", NMsgs: n},
+			c19Config{Name: via + "-implicit-tls", Via: via, TLS: "implicit", Caps: all, NMsgs: n},
+			c19Config{Name: via + "-implicit-tls-auth", Via: via, TLS: "implicit", Caps: with("AUTH PLAIN"), Auth: "PLAIN-TLSONLY", NMsgs: n},
+			c19Config{Name: via + "-implicit-tls-wrongname-cert", Via: via, TLS: "implicit", Caps: all, BadCert: "wrongname", NMsgs: n},
 		)
 	}
 	for i := range cfgs {
